@@ -5,7 +5,8 @@
    correspondence harness cmd/c15 which forces the same schedules through the
    `verif` yield points), the property is the trace monitor Spec/EventBusSpec.v
    (the same extracted monitor judges the implementation's traces). *)
-From Verif Require Import Base.Prelude Model.EventBus Spec.EventBusSpec Proofs.EventBusProofs.
+From Verif Require Import Base.Prelude Model.EventBus Spec.EventBusSpec Proofs.EventBusProofs Proofs.EventBusBurst.
+From Coq Require Import Sorting.Permutation.
 
 (* Every history and every interleaving (the operation list chooses which thread
    takes the next atomic step), provided no core handler calls Publish: each step
@@ -66,6 +67,56 @@ Theorem C15_bus_has_no_duplicates : forall ops, core_quiet ops = true -> NoDup (
 Proof. exact bus_NoDup. Qed.
 Print Assumptions C15_bus_has_no_duplicates.
 
+(* Overlapping subscribe / unsubscribe calls are the operation [Par acts] (k calls released
+   together on k goroutines, at any moment - also while publications are under way); the
+   histories of C15_trace_accepted contain them.  Each call is one critical section under
+   events.mu, so a burst that really overlaps takes effect in SOME order of its calls.  For a
+   well-posed burst (par_ok: two calls that name the same (level, handler) pair are of the same
+   kind, all core-level subscriptions name one handler) every order leaves the same bus: the
+   same core handlers in the same order (the order in which Publish calls them), the same
+   application handlers (started as goroutines: their order does not show), the same pairs, none
+   twice - so every later publication is delivered to the same handlers, and the model's order
+   (the order given) stands for every schedule.  The runner overlaps exactly the well-posed bursts. *)
+Theorem C15_burst_any_interleaving : forall acts acts' b,
+  par_ok acts = true -> Permutation acts acts' -> NoDup b ->
+  handlers_of Core (par_bus acts' b) = handlers_of Core (par_bus acts b) /\
+  Permutation (handlers_of App (par_bus acts' b)) (handlers_of App (par_bus acts b)) /\
+  Permutation (par_bus acts' b) (par_bus acts b) /\
+  NoDup (par_bus acts' b).
+Proof. exact burst_any_interleaving. Qed.
+Print Assumptions C15_burst_any_interleaving.
+
+(* the specification's side of the same fact: in whatever order the calls of a well-posed burst
+   are reported, the monitor expects the same handlers for every later publication *)
+Theorem C15_burst_same_expectations : forall acts acts' i i' m j,
+  par_ok acts = true -> Permutation acts acts' ->
+  In j (m_set (fst (mon_list m (par_obs i' acts')))) <-> In j (m_set (fst (mon_list m (par_obs i acts)))).
+Proof. exact burst_same_expectations. Qed.
+Print Assumptions C15_burst_same_expectations.
+
+(* k overlapping subscriptions of one pair are one subscription (and such a burst is well posed) *)
+Theorem C15_burst_same_pair_once : forall l h k b,
+  par_ok (repeat (ASub l h) (S k)) = true /\
+  par_bus (repeat (ASub l h) (S k)) b = subscribe (l, h) b.
+Proof. intros l h k b. split; [apply par_ok_same_pair | apply burst_same_pair]. Qed.
+Print Assumptions C15_burst_same_pair_once.
+
+(* The restriction is necessary: a subscription and an unsubscription of one pair do not commute,
+   and two new core-level subscriptions leave the core handlers in the order of their arrival. *)
+Theorem C15_burst_restriction_needed :
+  (exists acts acts', Permutation acts acts' /\ par_ok acts = false /\
+     In (App, 1%N) (par_bus acts []) /\ ~ In (App, 1%N) (par_bus acts' [])) /\
+  (exists acts acts', Permutation acts acts' /\ par_ok acts = false /\
+     handlers_of Core (par_bus acts []) <> handlers_of Core (par_bus acts' [])).
+Proof.
+  split.
+  - exists [AUnsub App 1; ASub App 1]%N, [ASub App 1; AUnsub App 1]%N.
+    split; [apply perm_swap|]. split; [reflexivity|]. split; [left; reflexivity | intros []].
+  - exists [ASub Core 1; ASub Core 2]%N, [ASub Core 2; ASub Core 1]%N.
+    split; [apply perm_swap|]. split; [reflexivity|]. vm_compute. discriminate.
+Qed.
+Print Assumptions C15_burst_restriction_needed.
+
 (* The hypothesis is necessary: a core handler that publishes blocks on muHandle,
    which its own publisher holds, for ever. *)
 Theorem C15_core_handler_publishing_deadlocks : exists ops,
@@ -91,4 +142,20 @@ Example C15_nonvacuous :
   forallb (fun ve => match fst ve with [] => true | _ => false end)
           (judge minit sinit (snd (run init ops))) = true /\
   last (concat (map snd (snd (run init ops)))) ODeadlock = OIdle.
+Proof. vm_compute. repeat split; reflexivity. Qed.
+
+(* Non-vacuity of the bursts: three overlapping subscriptions of one application handler and one
+   of a core handler while a publication is parked after its snapshot, then a burst that
+   unsubscribes one and subscribes another; each later event reaches each subscribed handler once. *)
+Example C15_burst_nonvacuous :
+  let ops := [Call 0 (ASub App 1); Drain 5; Call 0 APub; Step 0;      (* snapshot of event 0: application 1 *)
+              Par [ASub App 2; ASub Core 3; ASub App 2; ASub App 2];
+              Drain 50; Call 0 APub; Drain 50;                        (* event 1: core 3, application 1 and 2 *)
+              Par [AUnsub App 1; ASub App 4; AUnsub Core 3];
+              Call 0 APub; Drain 50] in                               (* event 2: application 2 and 4 *)
+  deliveries (snd (run init ops)) =
+    [(0, (App, 1)); (1, (Core, 3)); (1, (App, 1)); (1, (App, 2)); (2, (App, 2)); (2, (App, 4))]%N /\
+  bus (fst (run init ops)) = [(App, 2); (App, 4)]%N /\
+  forallb (fun ve => match fst ve with [] => true | _ => false end)
+          (judge minit sinit (snd (run init ops))) = true.
 Proof. vm_compute. repeat split; reflexivity. Qed.
